@@ -227,7 +227,7 @@ func cmdC17(args []string) error {
 			if (si+2*k)%3 == 0 {
 				interrupt = 1 + (si+k)%3
 			}
-			ar := realApplyPatch(patch, applyOpts{Bowl: "fresh", OldDir: oldDir, OutDir: outDir, Whitelist: m, Interrupt: interrupt,
+			ar := realApplyPatch(patch, applyOpts{Bowl: "fresh", OldDir: oldDir, OutDir: outDir, Whitelist: m, Interrupt: interrupt, OldEOF: k%2 == 1,
 				WrapPool: func(p lake.Pool, _ *tlc.Container) lake.Pool { rp.Pool = p; return rp },
 				WrapBowl: func(b bowl.Bowl) bowl.Bowl { rb.Bowl = b; return rb }})
 			s := c17Subset{Wl: nonNil64(wl), Touched: ar.Touched, Writers: nonNil64(rb.Writers), Transposes: nonNil64(rb.Transposes), Reads: nonNil64(rp.Reads), Out: []string{}, Want: []string{}}
